@@ -23,6 +23,8 @@ structure LibCfg where
   stringsNilPtrPanics : Bool := false   -- repaired in /repo (fix: StringsInspector dereferenced a typed-nil pointer)
   /-- strings.go: Set dereferences a nil `*string` / `*[]byte` value. -/
   stringsNilSrcPanics : Bool := false   -- repaired in /repo (fix: StringsInspector.Set dereferenced a nil *string / *[]byte value)
+  /-- reflect.go: `v.Index(idx)` without a bounds test — ReflectInspector.Get panics on a slice index out of range. -/
+  reflectIndexPanics : Bool := false   -- repaired in /repo (fix: ReflectInspector.Get panicked on a slice index out of range)
   /-- stranymap.go:216-221: Capacity with a non-empty path recurses into Length. -/
   samapCapIsLen : Bool := false   -- repaired in /repo (fix: commit), see known_findings.json
   /-- stranymap.go:223-249 (`indir1` / `indir2`), 60-66, 184-190, 203-206, 288-295: a nil `*map[string]any` /
@@ -49,6 +51,7 @@ def LibCfg.original : LibCfg where
   stringsCmpOutOfRange := true
   stringsNilPtrPanics := true
   stringsNilSrcPanics := true
+  reflectIndexPanics := true
   samapCapIsLen := true
   samapNilPtrPanics := true
   staticResetTextLost := true
@@ -61,6 +64,7 @@ def LibCfg.fixed : LibCfg where
   stringsCmpOutOfRange := false
   stringsNilPtrPanics := false
   stringsNilSrcPanics := false
+  reflectIndexPanics := false
   samapCapIsLen := false
   samapNilPtrPanics := false
   staticResetTextLost := false
@@ -233,11 +237,12 @@ def stringsCopyTo (cfg : LibCfg) (dstIsB : Bool) (fs fd : Form) (src dst : Val) 
     | .nilPtr => if (seqElems src).isEmpty then .ok dst 0 else .panic
     | _ => .unsupported
 
-def stringsReset (f : Form) (v : Val) : ResetOut :=
+def stringsReset (cfg : LibCfg) (f : Form) (v : Val) : ResetOut :=
   match f with
   | .val => .mustPointer
   | .ptr => (match v with | .slice nl _ c => .ok (.slice nl [] c) | x => .ok x)
-  | .nilPtr => .panic
+  -- `*ss = (*ss)[:0]` through a typed-nil pointer; repaired (fix: StringsInspector.Reset dereferenced a typed-nil …)
+  | .nilPtr => if cfg.stringsNilPtrPanics then .panic else .ok v
   | _ => .ok v           -- no arm: nil error, nothing happens
 
 end Inspector
